@@ -367,6 +367,124 @@ VCLAUSE(inverse, 300, 12000, 300000, "matrix has a zero or tiny entry on the dia
 	VCLOSE(c, "MX_minus_I", (double) sqrtl(r2), 0.0, (double) (tolr * cond), "||M*X - I||_F, cond_F=" << (double) cond);
 }
 
+// ---- histories: the determinant (and with it Invertible and Inverse) belongs to the matrix as it is NOW ---------------------------------
+// One Matrix object is mutated through every mutator the class offers between queries; a model (the plain table of entries) follows the same
+// operations, and every query is compared with the reference evaluated on the model. Nothing a query computed may survive a mutation.
+VCLAUSE(history, 400, 6000, 120000, "at least two mutations of different kinds lie between two queries on one object")
+{
+	Src& s = c.s;
+	int n  = (int) s.range(2, 5);
+	Rows a((size_t) n, std::vector<double>((size_t) n));
+	for(auto& r : a)
+		for(auto& x : r)
+			x = s.small_int(4);
+	Matrix M(a);
+	int nops = (int) s.range(3, 14), kinds_since_query = 0, last_kind = -1;
+	bool nt = false;
+	VLOG(c, "start " << n << "x" << n << " " << show(a));
+	for(int op = 0; op < nops; op++)
+	{
+		int kind = s.pick({5, 3, 3, 3, 1, 1, 1, 1});
+		if(kind == 0)
+		{
+			// query: Determinant, Invertible, and (when invertible) Inverse
+			LRows L = to_l(a);
+			long double ref = laplace(L);
+			double det = 0;
+			bool inv = false;
+			VMUST_RETURN("Determinant/Invertible after a history of mutations", det = M.Determinant(); inv = M.Invertible());
+			long double scale = std::min(row_scale(L), row_scale(l_transpose(L)));
+			VCLOSE(c, "determinant_after_history", det, (double) ref, (double) (8.0L * n * EPS * scale), "op " << op << ": Determinant of the current matrix " << show(a));
+			VCHECK(inv == (ref != 0.0L), "op " << op << ": Invertible()=" << inv << " for the current matrix " << show(a) << " with determinant " << (double) ref);
+			if(ref != 0.0L)
+			{
+				Matrix X;
+				VMUST_RETURN("Inverse after a history of mutations", X = M.Inverse());
+				long double worst = 0;
+				for(int i = 0; i < n; i++)
+					for(int j = 0; j < n; j++)
+					{
+						long double e = 0;
+						for(int k = 0; k < n; k++)
+							e += (long double) X[i][k] * a[(size_t) k][(size_t) j];
+						worst = std::max(worst, fabsl(e - (i == j ? 1 : 0)));
+					}
+				VCLOSE(c, "inverse_after_history", (double) worst, 0.0, 1e-9, "op " << op << ": X*M-I for the current matrix " << show(a));
+			}
+			else
+				VMUST_EXIT("Inverse of the current (singular) matrix", Matrix X = M.Inverse(); (void) X);
+			if(kinds_since_query >= 2)
+				nt = true;
+			kinds_since_query = 0;
+			last_kind		  = -1;
+			continue;
+		}
+		Rows b((size_t) n, std::vector<double>((size_t) n));
+		for(auto& r : b)
+			for(auto& x : r)
+				x = s.chance(0.6) ? 0.0 : s.small_int(3);
+		switch(kind)
+		{
+			case 1:
+				VMUST_RETURN("operator+=", M += Matrix(b));
+				for(int i = 0; i < n; i++)
+					for(int j = 0; j < n; j++)
+						a[(size_t) i][(size_t) j] += b[(size_t) i][(size_t) j];
+				break;
+			case 2:
+				VMUST_RETURN("operator-=", M -= Matrix(b));
+				for(int i = 0; i < n; i++)
+					for(int j = 0; j < n; j++)
+						a[(size_t) i][(size_t) j] -= b[(size_t) i][(size_t) j];
+				break;
+			case 3:
+			{
+				int i = (int) s.range(0, n - 1), j = (int) s.range(0, n - 1);
+				double v = s.small_int(6);
+				VMUST_RETURN("entry assignment", M[(unsigned) i][(unsigned) j] = v);
+				a[(size_t) i][(size_t) j] = v;
+				break;
+			}
+			case 4:
+				VMUST_RETURN("assignment of the transpose", M = M.Transpose());
+				a = to_d(l_transpose(to_l(a)));
+				break;
+			case 5:
+			{
+				Matrix cp(M);
+				VMUST_RETURN("copy and assign back", M = cp);
+				break;
+			}
+			case 6:
+			{
+				double v = s.small_int(3);
+				VMUST_RETURN("Assign", M.Assign(n, n, v));
+				for(auto& r : a)
+					for(auto& x : r)
+						x = v;
+				break;
+			}
+			default:
+			{
+				// shrink and grow again: the new entries are zero
+				if(n >= 3)
+				{
+					VMUST_RETURN("Resize", M.Resize(n - 1, n - 1); M.Resize(n, n));
+					for(int i = 0; i < n; i++)
+						a[(size_t) i][(size_t) n - 1] = a[(size_t) n - 1][(size_t) i] = 0.0;
+				}
+				break;
+			}
+		}
+		if(kind != last_kind)
+			kinds_since_query++;
+		last_kind = kind;
+		VLOG(c, "op " << op << " kind " << kind << " -> " << show(a));
+	}
+	if(nt)
+		c.nt();
+}
+
 VCLAUSE(nonsquare, 100, 4000, 80000, "shape differs by one row or column from a square matrix")
 {
 	int m = (int) c.s.range(1, 7), n = (int) c.s.range(1, 6);
